@@ -1,7 +1,7 @@
 from vlib.core import Ob
 ID = "C17"
 LEVEL = "model_checking"
-FUNCTIONS = ["GC_Set", "GC_Set_Ptr", "GC_Mem_Ptr", "GC_Rem", "GC_Rem_Ptr", "GC_Sweep", "GC_Mark", "GC_Mark_Item", "GC_Recurse", "GC_Mark_Stack", "GC_Probe", "GC_Hash",
+FUNCTIONS = ["alloc_by", "del_by", "alloc", "alloc_root", "alloc_raw", "new_with", "new_root_with", "new_raw_with", "del", "del_root", "del_raw", "GC_Rehash", "GC_Mark_And_Recurse", "GC_Set", "GC_Set_Ptr", "GC_Mem_Ptr", "GC_Rem", "GC_Rem_Ptr", "GC_Sweep", "GC_Mark", "GC_Mark_Item", "GC_Recurse", "GC_Mark_Stack", "GC_Probe", "GC_Hash",
              "GC_Resize_More", "GC_Resize_Less", "GC_Ideal_Size"]
 ASSUMPTIONS = []
 EXPLANATION = "inductive steps of the collector's registry operations from an arbitrary valid registry with an uninterpreted address hash"
@@ -28,8 +28,16 @@ OBLIGATIONS = (
     + [G("sweep.noown.nc3", "OP_SWEEP", 5, Q, ["NO_OWNERSHIP"], nc=3, timeout=1800),
        G("sweep.own", "OP_SWEEP_OWN", 5, ("probe",), nc=2, timeout=1800, extra_unwind=RECB), G("sweep.own.swap", "OP_SWEEP_OWN", 5, ("probe",), ["SWAP"], nc=2, timeout=1800, extra_unwind=RECB),
        G("rem_pending.home1", "OP_REM_PENDING", 5, Q, ["HOME=1", "NO_OWNERSHIP"], nc=3), G("rem_pending.home4", "OP_REM_PENDING", 5, Q, ["HOME=4", "NO_OWNERSHIP"], nc=3),
+       G("rehash.5to11", "OP_REHASH", 5, Q, ["NS2=11"], rc=["GC_Hash:verif_gc_hash", "GC_Set_Ptr:verif_set_ptr_stub"], extra_unwind=["GC_Rehash.0:8", "verif_calloc_rh.0:14"]),
+       G("rehash.5to1", "OP_REHASH", 5, Q, ["NS2=1"], rc=["GC_Hash:verif_gc_hash", "GC_Set_Ptr:verif_set_ptr_stub"], extra_unwind=["GC_Rehash.0:8", "verif_calloc_rh.0:4"]),
+       G("rehash.11to5", "OP_REHASH", 11, Q, ["NS2=5"], rc=["GC_Hash:verif_gc_hash", "GC_Set_Ptr:verif_set_ptr_stub"], extra_unwind=["GC_Rehash.0:14", "verif_calloc_rh.0:8"]),
+       G("rehash.11to23", "OP_REHASH", 11, T, ["NS2=23"], rc=["GC_Hash:verif_gc_hash", "GC_Set_Ptr:verif_set_ptr_stub"], nc=6, extra_unwind=["GC_Rehash.0:14", "verif_calloc_rh.0:26"]),
+       G("rehash.full.5to11.nc2", "OP_REHASH", 5, ("probe",), ["NS2=11", "REHASH_FULL"], rc=["GC_Hash:verif_gc_hash"], nc=2, extra_unwind=["GC_Rehash.0:8", "GC_Set_Ptr.0:14", "GC_Mem_Ptr.0:14", "verif_calloc_rh.0:14", "inv.0:14", "inv.1:14", "inv.2:14", "reg_find.0:14"], timeout=1800),
        G("mark_item", "OP_MARK_ITEM", 5, Q, rc=RC + ["GC_Recurse:verif_recurse_stub"]),
+       G("mark_item.padded", "OP_MARK_ITEM", 5, Q, ["PADMASK=5"], rc=RC + ["GC_Recurse:verif_recurse_stub"]),
        G("recurse", "OP_RECURSE", 5, Q, rc=RC + ["GC_Mark_Item:verif_item_stub"]),
+       G("mark_and_recurse", "OP_MARK_AND_RECURSE", 5, Q, rc=RC + ["GC_Mark_Item:verif_item_stub", "GC_Recurse:verif_recurse_stub"]),
+       ] + [G("recurse.mark_instance.d%d" % d_, "OP_RECURSE_HOLDER", 5, Q, ["CC=0", "DD=%d" % d_], rc=RC + ["GC_Mark_Item:verif_item_stub"], extra_unwind=["GC_Recurse:4", "GC_Mark_And_Recurse:4"]) for d_ in range(3)] + [
        G("mark_top", "OP_MARK_TOP", 5, Q, rc=RC + ["GC_Mark_Item:verif_item_stub", "GC_Recurse:verif_recurse_stub"])]
     # thorough: 4 cells in the sweep, 11-slot registry for set/mem/rem
     + [G("sweep.noown.nc4", "OP_SWEEP", 5, T, ["NO_OWNERSHIP"], nc=4, timeout=3600, mem_gb=16)]
@@ -37,6 +45,11 @@ OBLIGATIONS = (
     + [G("mem.home%d" % h, "OP_MEM", 11, T, ["HOME=%d" % h], nc=6, timeout=3600, mem_gb=16) for h in range(11)]
     + [G("rem.home%d" % h, "OP_REM", 11, T, ["HOME=%d" % h, "NO_OWNERSHIP"], nc=6, timeout=3600, mem_gb=16) for h in range(11)]
 )
+AUS = ["Type_Scan.0:40", "Type_Scan.1:40", "strcmp.0:26", "memcpy.0:8", "memset.0:8", "dealloc.0:10"]
+OBLIGATIONS = list(OBLIGATIONS) + [
+    Ob("alloc_layer.case%d%s" % (c_, "" if cfg == "default" else "." + cfg), "C17/alloc_layer.c", defs=["CASE=%d" % c_], replace=["Alloc.c"], config=cfg, unwind=12, unwindset=AUS, checks=["bounds", "pointer"], tiers=Q,
+       desc="alloc/new x standard|root|raw: registration and root flag; del x standard|root|raw (%s)" % cfg)
+    for c_ in (1, 2) for cfg in ("default", "ndebug")]
 LEVEL_TEXT = ("Bounded model checking of the real GC.c registry: set / mem / rem / sweep as inductive steps from an ARBITRARY valid registry (occupancy, probe layout, root flags, "
               "marks) with the address hash uninterpreted (any collision pattern), one obligation per home slot; the mark phase decomposed into GC_Mark / GC_Mark_Item / GC_Recurse "
               "contracts. 5-slot registry quick, 11-slot thorough.")
